@@ -7,14 +7,14 @@ import sys, os, json, glob, subprocess, time
 sys.path.insert(0, os.path.dirname(os.path.abspath(__file__)))
 import vlib
 V = '/verif'
-EXTRA = {'C10_m2': ['C07', 'C09'], 'C17_m2': ['C19'], 'C19_m2': ['C17'], 'C01_m1': [], 'C14_m2': []}
+EXTRA = {'C10_m2': ['C07', 'C09'], 'C17_m2': ['C19'], 'C19_m2': ['C17'], 'C01_r2m2': ['C12'], 'C06_r2m1': ['C15'], 'C15_r2m1': ['C17', 'C19']}
 
 def sh(cmd, cwd=None, timeout=3000):
     p = subprocess.run(cmd, shell=True, cwd=cwd, env=vlib.goenv(), stdout=subprocess.PIPE, stderr=subprocess.STDOUT, text=True, timeout=timeout)
     return p.returncode, p.stdout
 
 def main():
-    ids = sys.argv[1:] or [os.path.basename(d) for d in sorted(glob.glob(V + '/seeded/C??_m?'))]
+    ids = sys.argv[1:] or [os.path.basename(d) for d in sorted(glob.glob(V + '/seeded/C??_m?') + glob.glob(V + '/seeded/C??_r2m?'))]
     rc, o = sh('git -C /repo status --short')
     if o.strip():
         print('refusing: /repo is not clean:\n' + o); sys.exit(2)
